@@ -2508,6 +2508,12 @@ func (tc *typechecker) checkPackageSelector(expr *ast.Selector) (*typeInfo, bool
 			}
 		}
 	}
+	// Each use of a constant has its own type info because its value depends
+	// on the context in which the constant is used.
+	if ti.IsConstant() {
+		c := *ti
+		ti = &c
+	}
 	tc.compilation.typeInfos[expr] = ti
 	tc.scopes.Use(ident.Name)
 
